@@ -35,6 +35,14 @@ Definition py_int_val (x : str) : N :=   (* value for non-negative inputs accept
 
 Definition str_of_opt (o : option str) : str := match o with Some s => s | None => "None" end.
 
+(* int(x) >= 1 and str(int(x)) == x, ASCII domain: a non-empty string of digits without a leading zero
+   (positions start at 1 and are written plainly: "0", "-1", "+1", "07", " 1" name no position) *)
+Definition plain_index (x : str) : bool :=
+  match x with
+  | c :: _ => negb (beqb c "0") && forallb is_digit x
+  | [] => false
+  end.
+
 (* _valid_child_name(child_name, expected_parent) *)
 Definition valid_child_name (child : option str) (expected : option str) : bool :=
   match child with
@@ -42,7 +50,7 @@ Definition valid_child_name (child : option str) (expected : option str) : bool 
   | Some c =>
       match rsplit_us c with
       | None => false
-      | Some (parent, idx) => py_int_ok idx && streqb (upper parent) (upper (str_of_opt expected))
+      | Some (parent, idx) => plain_index idx && streqb (upper parent) (upper (str_of_opt expected))
       end
   end.
 
